@@ -12,7 +12,7 @@
    getSignPrediction, getMagRefinementContext on the Go flag word, reading the regenerated
    tables Gen/T1Tables_gen.v.
    T1CtxProofs.v proves, over every table index / every flag word, that Part 2 = Part 1. *)
-From V Require Import Common.Base.
+From V Require Import Common.Base T1.T1Store.
 Require V.Gen.T1Tables_gen.
 
 (* ------------------------------------------------------------------------------------
@@ -123,6 +123,19 @@ Definition sc_index (flags : Z) : Z :=
   (if has flags T1SigS then 128 + (if has flags T1SignS then 64 else 0) else 0).
 Definition sc_ctx (flags : Z) : Z := znth T1Tables_gen.t1_lut_sc (sc_index flags) 0.
 Definition spb (flags : Z) : Z := znth T1Tables_gen.t1_lut_spb (sc_index flags) 0.
+
+(* The same three lookups through tries built once from the regenerated lists (the extracted
+   model evaluates the tries at start-up; `znth` on a 2048-element list costs thousands of
+   steps per lookup).  T1CtxProofs.zc_ctx_t_eq / sc_ctx_t_eq / spb_t_eq: equal to the list
+   lookups for every flag word. *)
+Definition lut_zc_tree : tree := tree_of_list T1Tables_gen.t1_lut_zc.
+Definition lut_sc_tree : tree := tree_of_list T1Tables_gen.t1_lut_sc.
+Definition lut_spb_tree : tree := tree_of_list T1Tables_gen.t1_lut_spb.
+Definition zc_ctx_t (flags orient : Z) : Z :=
+  let o := if (orient <? 0) || (3 <? orient) then 0 else orient in
+  fget lut_zc_tree (o * 512 + zc_index flags).
+Definition sc_ctx_t (flags : Z) : Z := fget lut_sc_tree (sc_index flags).
+Definition spb_t (flags : Z) : Z := fget lut_spb_tree (sc_index flags).
 
 (* getMagRefinementContext *)
 Definition mr_ctx (flags : Z) : Z :=
